@@ -14,6 +14,17 @@ XH = ('CrossHair symbolic execution (z3 decides every branch) of the real flax '
       'functions over bounded symbolic arguments, path tree exhausted per obligation; '
       'counterexamples replayed on untraced code')
 
+check('C13',
+      'SLICES of the property (symbolic-tensor proofs): attention masks as Boolean '
+      'formulas; dot_product_attention_weights/dot_product_attention (Linen, NNX) '
+      '== softmax(q.k/sqrt(d)+bias) with masked logits at the fill value; one step '
+      'of LSTMCell/OptimizedLSTMCell/GRUCell/SimpleCell/MGUCell == documented '
+      'recurrence, NNX LSTMCell == Linen; flip_sequences/_select_last_carry for '
+      'symbolic per-row lengths (valid part exact, padding depends on padding).',
+      'Stepwise-decode == whole-sequence, non-interference through finfo.min '
+      'saturation, RNN/Bidirectional over nn.scan/nnx.scan need real JAX and are '
+      'NOT claimed; exp/sigmoid/tanh/sqrt uninterpreted; floats as reals.',
+      ENGC, 'DESIGN.md §4 C13, §9.5')
 check('C14',
       'Bounded symbolic check: Linen filter algebra (union/intersect/subtract/'
       'in_filter/is_filter_empty/group_collections) over every pair of syntactic '
@@ -91,6 +102,16 @@ check('C05',
       'returned mutable collections), non-lifted collections untouched.',
       'JAX primitives are contract stubs; nn.jit trace-cache/fingerprint staleness '
       'and Module-level transform classes are NOT covered.', XHS, 'DESIGN.md §4 C05')
+check('C08',
+      'SLICE of the property: flax-side routing of nnx.vmap/scan/grad only -- '
+      'StateAxes.map_prefix resolves each Variable to the axis of the first '
+      'matching filter, a Variable reachable from two arguments under different '
+      'axis specifications is rejected (all pairs over {None,0,1,Carry}), nnx.grad '
+      'differentiates exactly the wrt / DiffState selection and applies forward '
+      'side effects once.',
+      'Equality with the per-index loop, the scan loop and jax.grad numerics is '
+      'implemented by JAX (vmap, lax.scan, AD) and is NOT claimed; jax.grad is a '
+      'structure-returning stub.', XHS, 'DESIGN.md §4 C08, §9.5')
 check('C09',
       'SMT (z3, sequences of bit-vector bytes): the byte string the real '
       '_fold_in_static hashes, recorded by running it on symbolic str/int stand-ins, '
@@ -131,6 +152,17 @@ check('C12',
       'configurations beyond the grid, ConvTranspose/ConvLocal/GroupNorm/'
       'InstanceNorm/LoRA/fp8 NOT covered; shim validated per run against real jax.',
       ENGC, 'DESIGN.md §4 C12')
+check('C13',
+      'SLICES of the property (symbolic-tensor proofs): attention masks as Boolean '
+      'formulas; dot_product_attention_weights/dot_product_attention (Linen, NNX) '
+      '== softmax(q.k/sqrt(d)+bias) with masked logits at the fill value; one step '
+      'of LSTMCell/OptimizedLSTMCell/GRUCell/SimpleCell/MGUCell == documented '
+      'recurrence, NNX LSTMCell == Linen; flip_sequences/_select_last_carry for '
+      'symbolic per-row lengths (valid part exact, padding depends on padding).',
+      'Stepwise-decode == whole-sequence, non-interference through finfo.min '
+      'saturation, RNN/Bidirectional over nn.scan/nnx.scan need real JAX and are '
+      'NOT claimed; exp/sigmoid/tanh/sqrt uninterpreted; floats as reals.',
+      ENGC, 'DESIGN.md §4 C13, §9.5')
 check('C14',
       'Bounded symbolic check: Linen filter algebra (union/intersect/subtract/'
       'in_filter/is_filter_empty/group_collections) over every pair of syntactic '
@@ -148,14 +180,14 @@ check('C15',
       '"forces a retrace" / jit-vmap-grad reconstruction need real tracing: only '
       'treedef (in)equality and tree_map/flatten are decided.', XH, 'DESIGN.md §4 C15')
 check('C17',
-      'TrainState.apply_gradients and nnx.Optimizer.update executed with an '
+      'TrainState.apply_gradients, nnx.Optimizer.update and nnx.TrainState executed with an '
       'uninterpreted optax transformation (covers every transformation '
       'parametrically): exactly one update(grads, opt_state, params), params = '
       'apply_updates(p, U), state = S, step+1, wrt respected, old functional state '
       'intact. Metrics: z3 proves Average/Welford/Accuracy/MultiMetric over every '
       'partition of a symbolic stream equal the statistic of the whole stream.',
       'optax arithmetic itself uninterpreted; floats as reals; sqrt in '
-      'Welford.compute unchecked; nnx.TrainState not covered.',
+      'Welford.compute unchecked.',
       XH + ' + ' + ENGC, 'DESIGN.md §4 C17')
 check('C18',
       'Bounded symbolic check: ToNNX around int-valued Linen modules and ToLinen '
@@ -168,9 +200,13 @@ check('C20',
       'Bounded symbolic check: pad_shard_unpad on a segment-array stand-in for '
       'EVERY batch size >=1 and min_device_batch (unbounded symbolic ints; device '
       'count 1..16/64 enumerated); prefetch_to_device for symbolic source length / '
-      'buffer size / failing position; _invert_perm; shard/unreplicate.',
-      'np/jax rebound to stand-ins in flax.jax_utils; scan_in_dim, replicate, '
-      'onehot and PrefetchIterator thread schedules NOT covered in this revision.',
+      'buffer size / failing position; PrefetchIterator under every producer/'
+      'consumer schedule of <=10 (thorough 14) choices; _invert_perm; shard/'
+      'unreplicate.',
+      'np/jax rebound to stand-ins in flax.jax_utils; PrefetchIterator threads are a '
+      'coroutine model generated from the AST (pre-emption at synchronisation '
+      'events), counterexample schedules replayed on real threads; scan_in_dim, '
+      'replicate, onehot NOT covered.',
       XH, 'DESIGN.md §4 C20')
 
 NA['C06'] = ('semantics implemented by jax.vmap / axes_scan jaxpr tracing / '
